@@ -57,6 +57,20 @@ def gen(tier, rng):
     n = 150 if tier == "quick" else 3000
     for i in range(n):
         yield rand_script(rng, i)
+    # scheduled runs under the controllable runtime: unblock reaching a timed receiver in its last millisecond,
+    # tokens against every mix of receive calls; lock-step replay through the model
+    ns = 60 if tier == "quick" else 1500
+    for early in (294, 299, 200):
+        for sd in range(ns):
+            yield "mqs %d r0:timed30|r1:pop|p0:sleep%d,unblock" % (sd * 5 + early, early), {"scheduled": "unblock-window-%d" % early}
+            yield "mqs %d r0:timed30|r1:pop|r2:try,pop|p0:sleep%d,unblock,unblock,unblock" % (sd * 5 + early, early), {"scheduled": "three-tokens"}
+    for T in (5, 30):
+        for sd in range(20):
+            yield "mqs %d r0:timed%d|r1:timed%d,timed%d|p0:sleep%d" % (sd, T, T, T, 3 * T * 10), {"scheduled": "timed-alone"}
+    for i in range(300 if tier == "quick" else 6000):
+        sc = mqbase.rand_mqs(rng, allow_unblock=True)
+        for sd in range(3):
+            yield "mqs %d %s" % (rng.below(1 << 30), sc), {"scheduled": "random"}
 
 
 def project(o):
@@ -64,4 +78,4 @@ def project(o):
 
 
 def nontrivial(case, mo):
-    return ",u" in case or "timed" in case
+    return ",u" in case or "timed" in case or "unblock" in case
